@@ -175,23 +175,15 @@ func runPFaultCase(c *Case, env *Env) *Result {
 		}
 		wr.Fault = wf
 		var closeCh chan struct{}
-		closed := false
-		event := 0
-		tick := func() {
-			if cancelAt >= 0 && event == cancelAt && !closed {
-				close(closeCh)
-				closed = true
-				sched.note(evCancel, uint64(event))
-			}
-			event++
-		}
+		tk := NewTicker(-1, nil, sched)
 		if pc.Merge != nil {
 			closeCh = make(chan struct{})
+			tk = NewTicker(cancelAt, closeCh, sched)
 			if cancelAt == -2 { // before the call
 				close(closeCh)
-				closed = true
+				tk.Closed = true
 			}
-			wr.OnWrite = func(int, int) { tick() }
+			wr.OnWrite = tk.OnWrite
 			// file-backed inputs are loaded afresh for every execution: their
 			// dictionaries are cold, so the merge's reads of them are seam events
 			// (and cancellation points) in every run, not only in the first
@@ -205,7 +197,7 @@ func runPFaultCase(c *Case, env *Env) *Result {
 						out.pi, out.err = pi, err
 						return out
 					}
-					ra.OnRead = func(int) { tick() }
+					ra.OnRead = tk.OnRead
 					runSegs[k] = fresh
 				}
 			}
@@ -226,11 +218,11 @@ func runPFaultCase(c *Case, env *Env) *Result {
 				_, out.ret, out.pi, out.err = RunMerge(pc.Merge, pc.Mode, runSegs, drops, wr, closeCh)
 			}
 		} else {
-			wr.OnWrite = func(int, int) { event++ }
+			wr.OnWrite = tk.OnWrite
 			out.pi = Guard(func() { out.ret, out.err = target.Seg.WriteTo(wr, nil) })
 		}
 		out.buf = stripPrefill(wr.Buf, pc.Prefill)
-		out.events = event
+		out.events = tk.Count()
 		out.writes = wr.Calls
 		if out.retried {
 			out.buf, out.writes = firstBuf, firstWrites
@@ -249,7 +241,7 @@ func runPFaultCase(c *Case, env *Env) *Result {
 			}
 		}
 		res.SubRuns++
-		res.Events += event
+		res.Events += tk.Count()
 		return out
 	}
 
